@@ -1,13 +1,15 @@
 SPECIFICATION Spec
 CONSTANTS
-  G = 5
-  MaxRings = 3
+  G = 7
+  MaxRings = 4
   Drawings = 1
   Kinds = {"rect"}
   MutSeq <- MutNone
-  Modes = {"inside"}
+  ModeSeq <- ModeChain
   MaxSegs = 26
   Styles = {}
+  RolePats <- TwoRolePats
   Theorems = TRUE
+  Tiles = FALSE
 INVARIANTS RayIndependent FillIsXor CancelSound CatalogueValid JudgeAcceptsReference JudgeRejectsSpoiled
 CHECK_DEADLOCK FALSE
